@@ -1,4 +1,18 @@
-(* placeholder so that the pipeline can be exercised; replaced by the real theorems *)
-From SV Require Import Names Rep.
-Theorem C17_placeholder : True. Proof. exact I. Qed.
-Print Assumptions C17_placeholder.
+(* C17 -- JSON encoding round-trips, at the level of the encoded structure (list of
+   {id, faces, attributes} in listing order); the text layer is Python's json module (exercised by
+   the correspondence, not modelled).
+   BOUNDED: every complex on at most 4 labelled points, with names tied to vertex sets and with
+   library-generated names: decoding the encoding gives the same names in the same listing
+   order, the same orders and faces, and a well-formed complex. *)
+From Coq Require Import String ZArith Bool Arith List.
+From SV Require Import Names Rep Complex Homology Filtration Gen World Small Sweeps.
+
+Theorem C17_roundtrip_upto4_partial : forall c, In c complexes4 ->
+  chk_json (build_named 1 c) && chk_json (build c) = true.
+Proof. exact json_upto4. Qed.
+Print Assumptions C17_roundtrip_upto4_partial.
+
+(* the encoding lists the simplices in listing order, hence every simplex after all of its faces *)
+Theorem C17_listing_order : forall hp v, map j_id (encode_view hp v) = map fst v.
+Proof. intros hp v. unfold encode_view. rewrite map_map. reflexivity. Qed.
+Print Assumptions C17_listing_order.
